@@ -65,9 +65,13 @@ Inductive case :=
 (* one retention pass: sizes in list order, removed = positions (in that list) of the fractions gone *)
 | CShrink (limit : N) (sizes : list N) (removed : list nat)
 (* restart with a variant of .frac-cache: per sealed fraction the parsed entry, the header-derived
-   info (restart without cache) and the info reported. genuine = content written by the store
-   itself (possibly stale, truncated, with entries of deleted fractions), not tampered with *)
-| CCache (genuine : bool) (l : list cinfo).
+   info (restart without cache) and the info reported (all zero when the fraction is no longer
+   listed); documents served by fetch AND search without the file / with it / wrongly or half
+   served with it. strict = every variant except entries with a POSITIVE index size and wrong
+   other numbers (those the fast path takes at face value): absent, current, stale, truncated,
+   garbage, entries stripped to the name / emptied / partially filled / with zero or missing index
+   size *)
+| CCache (strict : bool) (l : list cinfo) (expected ok wrong : N).
 
 Definition broken (sorted : bool) (f : fracst) : bool :=
   negb (served_ok sorted (fs_of (st_files f))) && st_hasdata f.
@@ -119,7 +123,7 @@ Definition case_agrees (c : case) : bool :=
       | None, Some _ => false
       end
   | CShrink limit sizes removed => nat_list_eqb removed (seq 0 (shrink limit sizes))
-  | CCache _ l => forallb (fun c => info_eqb (new_sealed (ci_entry c) (ci_hdr c)) (ci_impl c)) l
+  | CCache _ l _ _ _ => forallb (fun c => info_eqb (new_sealed (ci_entry c) (ci_hdr c)) (ci_impl c)) l
   end.
 
 Definition case_spec_ok (c : case) : bool :=
@@ -142,8 +146,9 @@ Definition case_spec_ok (c : case) : bool :=
       nat_list_eqb removed (seq 0 k)                                    (* a prefix: oldest first, whole fractions *)
       && ((sumN (skipn k sizes) <=? limit)%N || Nat.eqb k (length sizes))  (* enough was removed *)
       && (Nat.eqb k 0 || (limit <? sumN (skipn (k - 1) sizes))%N)        (* and not more than needed *)
-  | CCache genuine l =>
-      negb genuine || forallb (fun c => info_eqb (ci_hdr c) (ci_impl c)) l
+  | CCache strict l expected ok wrong =>
+      (* independent of the model: same Info as from the index header, every document still served *)
+      negb strict || (forallb (fun c => info_eqb (ci_hdr c) (ci_impl c)) l && N.eqb ok expected && N.eqb wrong 0)
   end.
 
 Definition diff_indices (l : list case) : list nat := bad_indices (fun c => negb (case_agrees c)) l.
